@@ -869,9 +869,15 @@ pub fn headers(bytes: &Bytes) -> Result<(HeaderMap, usize), Error> {
                     name_end = pos;
                     if bytes.get(pos + 1) != Some(&chars::SPACE) {
                         parse_stage.next();
-                        let rest = &bytes[pos..];
-                        value_start =
-                            rest.iter().copied().position(|b| b != b' ').unwrap_or(0) + pos;
+                        // the value starts after the colon (and any tabs)
+                        let rest = &bytes[pos + 1..];
+                        value_start = rest
+                            .iter()
+                            .copied()
+                            .position(|b| b != b' ' && b != chars::TAB)
+                            .unwrap_or(rest.len())
+                            + pos
+                            + 1;
                     }
                     continue;
                 }
@@ -890,7 +896,14 @@ pub fn headers(bytes: &Bytes) -> Result<(HeaderMap, usize), Error> {
                     )
                     .ok()
                     .ok_or(Error::IllegalName)?;
-                    let value = HeaderValue::from_maybe_shared(bytes.slice(value_start..pos - 1))
+                    // strip the CR of a CRLF line ending, if there is one
+                    let value_end = if pos > value_start && bytes.get(pos - 1) == Some(&chars::CR)
+                    {
+                        pos - 1
+                    } else {
+                        pos
+                    };
+                    let value = HeaderValue::from_maybe_shared(bytes.slice(value_start..value_end))
                         .ok()
                         .ok_or(Error::IllegalValue)?;
                     headers.insert(name, value);
